@@ -371,6 +371,10 @@ impl<'f, T: Elem> State<'f, T> {
                     format!("ok:{}", hash_hex(&c.root()))
                 }
             }
+            Op::Fault(k) => {
+                crate::elem::FAULT.store(*k as i64, std::sync::atomic::Ordering::SeqCst);
+                "ok".to_string()
+            }
             Op::Drop(a) => {
                 if self.regs[*a].is_none() {
                     return BADREG.to_string();
@@ -616,7 +620,17 @@ fn run_core<T: Elem>(
         let n = k + 1;
         buf.clear();
         crate::isolate::progress(n);
-        match catch_unwind(AssertUnwindSafe(|| st.exec(op))) {
+        let outcome = catch_unwind(AssertUnwindSafe(|| st.exec(op)));
+        if !matches!(op, Op::Fault(_)) {
+            // the countdown armed by `fault k` covers exactly the next operation
+            crate::elem::FAULT.store(0, std::sync::atomic::Ordering::SeqCst);
+        }
+        match outcome {
+            Err(_) if crate::elem::FIRED.swap(false, std::sync::atomic::Ordering::SeqCst) => {
+                // an injected fault inside an element callback: the operation was abandoned by the
+                // caller's catch_unwind, the collections stay in their registers and the history goes on
+                let _ = writeln!(buf, "R {n} fault");
+            }
             Err(_) => {
                 let _ = writeln!(out, "R {n} panic");
                 let _ = out.flush();
